@@ -17,6 +17,10 @@ import OsloProofs.Lemmas.C16Slug
 namespace Oslo.C16
 open Oslo.Encode Oslo.Slug
 
+-- the concrete classes of the arguments (exact `str`/`bytes` or any proper subclass): every
+-- theorem below holds for all of them
+variable (k k' : Cls)
+
 /-! ### what is assumed about a codec table -/
 
 /-- codec `n` represents text faithfully: what strict encoding produces decodes (under any error
@@ -36,7 +40,7 @@ def CaseInsensitive (C : Codecs) : Prop :=
 
 /-- `safe_decode` returns a `str` unchanged, whatever the encoding, policy and locale -/
 theorem decode_str_id (C : Codecs) (env : Env) (t : Text) (inc : Option Name) (p : Policy) :
-    safeDecode C env (.str t) inc p = .ok t := rfl
+    safeDecode C env (.str k t) inc p = .ok t := rfl
 
 /-- an explicit non-empty `incoming` is the codec used; `None`/`''` fall back to
     `sys.stdin.encoding`, then to `sys.getdefaultencoding()` -/
@@ -52,27 +56,27 @@ theorem resolve_spec (env : Env) :
 /-- bytes are decoded with the given codec: whatever it yields is the result … -/
 theorem decode_bytes_codec (C : Codecs) (env : Env) (b : Bytes) (inc : Option Name) (p : Policy)
     (t : Text) (h : C.decode (resolve env inc) p b = .ok t) :
-    safeDecode C env (.bytes b) inc p = .ok t := by
+    safeDecode C env (.bytes k b) inc p = .ok t := by
   simp [safeDecode, h]
 
 /-- … when it reports a decoding error the bytes are decoded as UTF-8 instead (same policy) … -/
 theorem decode_bytes_utf8_fallback (C : Codecs) (env : Env) (b : Bytes) (inc : Option Name)
     (p : Policy) (h : C.decode (resolve env inc) p b = .error .unicodeDecodeError) :
-    safeDecode C env (.bytes b) inc p = C.decode utf8Name p b := by
+    safeDecode C env (.bytes k b) inc p = C.decode utf8Name p b := by
   simp [safeDecode, h]
 
 /-- … and any other failure (unknown codec) is raised as it is -/
 theorem decode_bytes_other_error (C : Codecs) (env : Env) (b : Bytes) (inc : Option Name)
     (p : Policy) (e : Err) (he : e ≠ .unicodeDecodeError)
     (h : C.decode (resolve env inc) p b = .error e) :
-    safeDecode C env (.bytes b) inc p = .error e := by
+    safeDecode C env (.bytes k b) inc p = .error e := by
   cases e <;> simp_all [safeDecode]
 
 /-! ### safe_encode -/
 
 /-- `safe_encode` of a `str` is the codec's encoding under the lower-cased name and given policy -/
 theorem encode_str_codec (C : Codecs) (env : Env) (t : Text) (inc : Option Name) (e : Name)
-    (p : Policy) : safeEncode C env (.str t) inc e p = C.encode (lowerName e) p t := rfl
+    (p : Policy) : safeEncode C env (.str k t) inc e p = C.encode (lowerName e) p t := rfl
 
 /-- **Round trip.**  `safe_encode(text, encoding=e)` followed by `safe_decode(…, incoming=e)` —
     under any decoding policy and locale, whatever `incoming` the encoding call was given —
@@ -80,8 +84,8 @@ theorem encode_str_codec (C : Codecs) (env : Env) (t : Text) (inc : Option Name)
 theorem encode_decode_roundtrip (C : Codecs) (hci : CaseInsensitive C) (env env' : Env)
     (e : Name) (he : e ≠ []) (hf : Faithful C (lowerName e))
     (t : Text) (inc : Option Name) (b : Bytes) (p : Policy)
-    (h : safeEncode C env (.str t) inc e .strict = .ok b) :
-    safeDecode C env' (.bytes b) (some e) p = .ok t := by
+    (h : safeEncode C env (.str k t) inc e .strict = .ok b) :
+    safeDecode C env' (.bytes k' b) (some e) p = .ok t := by
   cases e with
   | nil => exact absurd rfl he
   | cons c cs =>
@@ -94,25 +98,25 @@ theorem encode_decode_roundtrip_any_policy (C : Codecs) (hci : CaseInsensitive C
     (e : Name) (he : e ≠ []) (hf : Faithful C (lowerName e)) (hp : PolicyFree C (lowerName e))
     (t : Text) (inc : Option Name) (b0 b : Bytes) (q p : Policy)
     (hrep : C.encode (lowerName e) .strict t = .ok b0)
-    (h : safeEncode C env (.str t) inc e q = .ok b) :
-    safeDecode C env' (.bytes b) (some e) p = .ok t := by
+    (h : safeEncode C env (.str k t) inc e q = .ok b) :
+    safeDecode C env' (.bytes k' b) (some e) p = .ok t := by
   have hb : b = b0 := by
     have h1 : C.encode (lowerName e) q t = .ok b0 := hp t b0 q hrep
     have h2 : C.encode (lowerName e) q t = .ok b := h
     rw [h1] at h2; exact (Except.ok.inj h2).symm
   subst hb
-  exact encode_decode_roundtrip C hci env env' e he hf t inc b p hrep
+  exact encode_decode_roundtrip k k' C hci env env' e he hf t inc b p hrep
 
 /-- bytes are returned untouched when `encoding` and the (resolved) `incoming` agree up to letter
     case — valid for that codec or not — … -/
 theorem encode_bytes_same_codec_id (C : Codecs) (env : Env) (b : Bytes) (inc : Option Name)
     (e : Name) (p : Policy) (h : lowerName e = lowerName (resolve env inc)) :
-    safeEncode C env (.bytes b) inc e p = .ok b := by
+    safeEncode C env (.bytes k b) inc e p = .ok b := by
   simp [safeEncode, h]
 
 /-- … and when they are empty -/
 theorem encode_bytes_empty_id (C : Codecs) (env : Env) (inc : Option Name) (e : Name) (p : Policy) :
-    safeEncode C env (.bytes []) inc e p = .ok [] := by
+    safeEncode C env (.bytes k []) inc e p = .ok [] := by
   simp [safeEncode]
 
 /-- otherwise they are transcoded: decoded by `safe_decode` with the incoming codec, encoded with
@@ -120,8 +124,8 @@ theorem encode_bytes_empty_id (C : Codecs) (env : Env) (inc : Option Name) (e : 
 theorem encode_bytes_transcode (C : Codecs) (hci : CaseInsensitive C) (env : Env) (b : Bytes)
     (hb : b ≠ []) (inc : Option Name) (e : Name) (p : Policy)
     (hne : lowerName e ≠ lowerName (resolve env inc)) :
-    safeEncode C env (.bytes b) inc e p =
-      match safeDecode C env (.bytes b) inc p with
+    safeEncode C env (.bytes k b) inc e p =
+      match safeDecode C env (.bytes k b) inc p with
       | .ok t => C.encode (lowerName e) p t
       | .error err => .error err := by
   have hres : resolve env (some (lowerName (resolve env inc))) = lowerName (resolve env inc) := by
@@ -132,23 +136,23 @@ theorem encode_bytes_transcode (C : Codecs) (hci : CaseInsensitive C) (env : Env
       obtain ⟨sin, d⟩ := env
       rcases inc with _ | _ | ⟨c, cs⟩ <;> rcases sin with _ | _ | ⟨c', cs'⟩ <;>
         simp_all [resolve, lowerName]
-  have hdec : safeDecode C env (.bytes b) (some (lowerName (resolve env inc))) p =
-      safeDecode C env (.bytes b) inc p := by
+  have hdec : safeDecode C env (.bytes k b) (some (lowerName (resolve env inc))) p =
+      safeDecode C env (.bytes k b) inc p := by
     simp only [safeDecode, hres, hci (resolve env inc) p b]
   simp only [safeEncode, hb, hne, ne_eq, not_false_eq_true, and_self, if_true]
   rw [hdec]
-  cases safeDecode C env (.bytes b) inc p <;> rfl
+  cases safeDecode C env (.bytes k b) inc p <;> rfl
 
 /-! ### to_utf8 -/
 
-theorem to_utf8_str (C : Codecs) (t : Text) : toUtf8 C (.str t) = C.encode utf8Name .strict t := rfl
+theorem to_utf8_str (C : Codecs) (t : Text) : toUtf8 C (.str k t) = C.encode utf8Name .strict t := rfl
 
-theorem to_utf8_bytes_id (C : Codecs) (b : Bytes) : toUtf8 C (.bytes b) = .ok b := rfl
+theorem to_utf8_bytes_id (C : Codecs) (b : Bytes) : toUtf8 C (.bytes k b) = .ok b := rfl
 
 /-- what `to_utf8` makes of a `str` decodes back to it (UTF-8 faithful) -/
 theorem to_utf8_roundtrip (C : Codecs) (hf : Faithful C utf8Name) (env : Env) (t : Text) (b : Bytes)
-    (p : Policy) (h : toUtf8 C (.str t) = .ok b) :
-    safeDecode C env (.bytes b) (some utf8Name) p = .ok t := by
+    (p : Policy) (h : toUtf8 C (.str k t) = .ok b) :
+    safeDecode C env (.bytes k' b) (some utf8Name) p = .ok t := by
   have := hf t b p h
   simp [safeDecode, resolve, utf8Name] at this ⊢
   simp [this]
@@ -165,6 +169,71 @@ theorem to_utf8_typeerror (C : Codecs) : toUtf8 C .other = .error .typeError := 
 
 theorem to_slug_typeerror (C : Codecs) (env : Env) (front : Text → Text) (inc : Option Name)
     (p : Policy) : toSlug C env front .other inc p = .error .typeError := rfl
+
+/-- the codec machinery itself never raises TypeError (names and policies are strings) -/
+def NoTypeError (C : Codecs) : Prop :=
+  (∀ n p t, C.encode n p t ≠ .error .typeError) ∧ (∀ n p b, C.decode n p b ≠ .error .typeError)
+
+/-- **TypeError exactly for the other types.**  Every instance of `str` or `bytes` — of the exact
+    class or of any subclass — is accepted by all four helpers; TypeError means the argument is
+    neither. -/
+theorem typeerror_iff_other (C : Codecs) (hc : NoTypeError C) (env : Env) (front : Text → Text)
+    (inc : Option Name) (e : Name) (p : Policy) (v : Val) :
+    (safeDecode C env v inc p = .error .typeError ↔ v = .other) ∧
+    (safeEncode C env v inc e p = .error .typeError ↔ v = .other) ∧
+    (toUtf8 C v = .error .typeError ↔ v = .other) ∧
+    (toSlug C env front v inc p = .error .typeError ↔ v = .other) := by
+  obtain ⟨h1, h2⟩ := hc
+  have hd : ∀ c b i, safeDecode C env (.bytes c b) i p ≠ .error .typeError := by
+    intro c b i h
+    simp only [safeDecode] at h
+    cases hx : C.decode (resolve env i) p b with
+    | ok t => simp [hx] at h
+    | error er =>
+      cases er with
+      | typeError => exact h2 _ _ _ hx
+      | unicodeDecodeError => simp only [hx] at h; exact h2 _ _ _ h
+      | unicodeEncodeError => simp [hx] at h
+      | lookupError => simp [hx] at h
+  cases v with
+  | other => simp [safeDecode, safeEncode, toUtf8, toSlug]
+  | str c t =>
+    refine ⟨by simp [safeDecode], by simpa [safeEncode] using h1 _ _ _,
+      by simpa [toUtf8] using h1 _ _ _, by simp [toSlug, safeDecode]⟩
+  | bytes c b =>
+    refine ⟨by simpa using hd c b inc, ?_, by simp [toUtf8], ?_⟩
+    · simp only [reduceCtorEq, iff_false]
+      intro h
+      unfold safeEncode at h
+      simp only at h
+      split at h
+      · cases hs : safeDecode C env (.bytes c b) (some (lowerName (resolve env inc))) p with
+        | ok t => simp only [hs] at h; exact h1 _ _ _ h
+        | error er =>
+          simp only [hs, Except.error.injEq] at h
+          subst h; exact hd _ _ _ hs
+      · simp at h
+    · simp only [reduceCtorEq, iff_false]
+      intro h
+      unfold toSlug at h
+      cases hs : safeDecode C env (.bytes c b) inc p with
+      | ok t => simp [hs] at h
+      | error er =>
+        simp only [hs, Except.error.injEq] at h
+        subst h; exact hd _ _ _ hs
+
+/-- **Class independence.**  An instance of a subclass of `str` / `bytes` is treated exactly like
+    the `str` / `bytes` with the same content by every helper. -/
+theorem text_class_irrelevant (C : Codecs) (env : Env) (front : Text → Text) (inc : Option Name)
+    (e : Name) (p : Policy) (t : Text) (b : Bytes) :
+    safeDecode C env (.str k t) inc p = safeDecode C env (.str k' t) inc p ∧
+    safeDecode C env (.bytes k b) inc p = safeDecode C env (.bytes k' b) inc p ∧
+    safeEncode C env (.str k t) inc e p = safeEncode C env (.str k' t) inc e p ∧
+    safeEncode C env (.bytes k b) inc e p = safeEncode C env (.bytes k' b) inc e p ∧
+    toUtf8 C (.str k t) = toUtf8 C (.str k' t) ∧ toUtf8 C (.bytes k b) = toUtf8 C (.bytes k' b) ∧
+    toSlug C env front (.str k t) inc p = toSlug C env front (.str k' t) inc p ∧
+    toSlug C env front (.bytes k b) inc p = toSlug C env front (.bytes k' b) inc p :=
+  ⟨rfl, rfl, rfl, rfl, rfl, rfl, rfl, rfl⟩
 
 /-! ### the codecs the driver runs satisfy the laws (non-vacuity of the hypotheses above, and
     the reason the correspondence can run real bytes) -/
@@ -204,6 +273,71 @@ theorem real_caseInsensitive : CaseInsensitive real := by
   intro n p b
   simp [real, lemma_lookup_lower]
 
+theorem lemma_map_error {α β : Type} (f : α → β) (x : Except Err α) (e : Err)
+    (h : Except.map f x = .error e) : x = .error e := by
+  cases x <;> simp_all [Except.map]
+
+theorem real_noTypeError : NoTypeError real := by
+  have hse : ∀ l q u, sbEncode l q u ≠ .error .typeError := by
+    intro l q u
+    induction u with
+    | nil => simp [sbEncode]
+    | cons c cs ih =>
+      intro h
+      unfold sbEncode at h
+      split at h
+      · exact ih (lemma_map_error _ _ _ h)
+      · cases q with
+        | strict => simp at h
+        | ignore => exact ih h
+        | replace => exact ih (lemma_map_error _ _ _ h)
+  have hsd : ∀ l q u, sbDecode l q u ≠ .error .typeError := by
+    intro l q u
+    induction u with
+    | nil => simp [sbDecode]
+    | cons c cs ih =>
+      intro h
+      unfold sbDecode at h
+      split at h
+      · exact ih (lemma_map_error _ _ _ h)
+      · cases q with
+        | strict => simp at h
+        | ignore => exact ih h
+        | replace => exact ih (lemma_map_error _ _ _ h)
+  have hco : ∀ q evs, collect q evs ≠ .error .typeError := by
+    intro q evs
+    induction evs with
+    | nil => simp [collect]
+    | cons ev rest ih =>
+      intro h
+      cases ev with
+      | ch m =>
+        unfold collect at h
+        cases hm : mkChar? m <;> cases hh : collect q rest <;> simp_all
+      | bad =>
+        unfold collect at h
+        cases q with
+        | strict => simp at h
+        | ignore => exact ih h
+        | replace => exact ih (lemma_map_error _ _ _ h)
+  constructor
+  · intro n p t h
+    simp only [real] at h
+    split at h
+    · simp at h
+    · simp at h
+    · exact hse _ _ _ h
+    · exact hse _ _ _ h
+  · intro n p b h
+    simp only [real] at h
+    split at h
+    · simp at h
+    · split at h
+      · simp at h
+      · exact hco _ _ h
+      · exact hsd _ _ _ h
+      · exact hsd _ _ _ h
+
 deriving instance DecidableEq for Except
 
 /-- a locale for the examples: no `sys.stdin.encoding`, default encoding utf-8 -/
@@ -212,14 +346,14 @@ def env0 : Env := ⟨none, "utf-8".toList⟩
 /-- non-vacuity: a concrete round trip through UTF-8 (2-, 3- and 4-byte forms) in mixed case,
     a transcoding latin-1 → utf-8, the UTF-8 fall-back, an untouched invalid byte string -/
 example :
-    safeEncode real env0 (.str ['é', '€', Char.ofNat 0x1F600]) none "UTF-8".toList .strict
+    safeEncode real env0 (.str .sub ['é', '€', Char.ofNat 0x1F600]) none "UTF-8".toList .strict
       = .ok [0xC3, 0xA9, 0xE2, 0x82, 0xAC, 0xF0, 0x9F, 0x98, 0x80] ∧
-    safeDecode real env0 (.bytes [0xC3, 0xA9, 0xE2, 0x82, 0xAC, 0xF0, 0x9F, 0x98, 0x80])
+    safeDecode real env0 (.bytes .exact [0xC3, 0xA9, 0xE2, 0x82, 0xAC, 0xF0, 0x9F, 0x98, 0x80])
       (some "Utf-8".toList) .strict = .ok ['é', '€', Char.ofNat 0x1F600] ∧
-    safeEncode real env0 (.bytes [0xE9]) (some "Latin-1".toList) "utf8".toList .strict = .ok [0xC3, 0xA9] ∧
-    safeDecode real env0 (.bytes [0xC3, 0xA9]) (some "ascii".toList) .strict = .ok ['é'] ∧
-    safeEncode real env0 (.bytes [0xFF]) (some "UTF-8".toList) "utf-8".toList .strict = .ok [0xFF] ∧
-    safeEncode real env0 (.str ['é']) none "ascii".toList .strict = .error .unicodeEncodeError := by
+    safeEncode real env0 (.bytes .sub [0xE9]) (some "Latin-1".toList) "utf8".toList .strict = .ok [0xC3, 0xA9] ∧
+    safeDecode real env0 (.bytes .exact [0xC3, 0xA9]) (some "ascii".toList) .strict = .ok ['é'] ∧
+    safeEncode real env0 (.bytes .sub [0xFF]) (some "UTF-8".toList) "utf-8".toList .strict = .ok [0xFF] ∧
+    safeEncode real env0 (.str .exact ['é']) none "ascii".toList .strict = .error .unicodeEncodeError := by
   decide +kernel
 
 /-! ### to_slug -/
@@ -267,7 +401,7 @@ theorem slug_idempotent (front : Text → Text) (hf : FrontOK front) (s : Text) 
 theorem to_slug_idempotent (C : Codecs) (env env' : Env) (front : Text → Text) (hf : FrontOK front)
     (v : Val) (inc inc' : Option Name) (p p' : Policy) (o : Text)
     (h : toSlug C env front v inc p = .ok o) :
-    toSlug C env' front (.str o) inc' p' = .ok o := by
+    toSlug C env' front (.str k o) inc' p' = .ok o := by
   unfold toSlug at h
   cases hd : safeDecode C env v inc p with
   | error e => simp [hd] at h
@@ -291,9 +425,9 @@ theorem to_slug_alphabet (C : Codecs) (env : Env) (front : Text → Text) (hf : 
 
 /-- non-vacuity: slugs of bytes and text through the concrete table -/
 example :
-    toSlug real env0 asciiFront (.bytes [0x41, 0x20, 0x20, 0x62, 0x21]) (some "ASCII".toList)
+    toSlug real env0 asciiFront (.bytes .sub [0x41, 0x20, 0x20, 0x62, 0x21]) (some "ASCII".toList)
       .strict = .ok "a-b".toList ∧
-    toSlug real env0 asciiFront (.str "a-b".toList) none .strict = .ok "a-b".toList := by
+    toSlug real env0 asciiFront (.str .sub "a-b".toList) none .strict = .ok "a-b".toList := by
   decide +kernel
 
 end Oslo.C16
